@@ -378,7 +378,7 @@ def write_replay(case, sig, msg, info):
     core.use_repo()
     if "by_sig" in case:
         case = {"seed": case["seed"], "apk": case["apk"], "sig": case["sig"], "fault": case["by_sig"][sig]}
-    got, detail = _check(case["apk"], case["sig"], case["fault"])
+    got, detail = core.isolated(_check, case["apk"], case["sig"], case["fault"])
     if got != sig:
         return None
     payload = {"property": PROP, "engine": "iosim-archive", "seed": case["seed"], "config": {}, "apk": case["apk"],
